@@ -42,36 +42,75 @@ def rule_enumeration(ctx, res):
             continue
         v = strip_transparent(r[2].get('0'))
         nx = [x for x in find_calls(v, '::next') if is_field_of_param(x[2][0], 'self', ['current_iter', '0']) or 'current_iter' in fmt(x[2][0])]
-        fd = find_calls(v, 'Iterator::find')
+        fd = [x for x in find_calls(v, '::find') if x[1].split('::')[-1] == 'find']
         if nx and field_chain(v)[-1:] == ['0']:
             kinds.add('bucket')
         elif fd and field_chain(v)[-2:] == ['0', '1']:
             kinds.add('assorted')
             f = fd[0]
+            # the entry handed out satisfies, jointly over any `.filter(..)` stages and the `find` predicate:
+            #   live (is_good_node)  AND  ideal index == current index  AND  not handed out before
+            stages = [f[2][1]]
             src = strip_transparent(f[2][0])
-            okf = src[0] == 'call' and src[1].endswith('Iterator::filter') and find_calls(src, 'iter_mut') and 'assorted_nodes' in str(src)
-            c0 = closure_paths(ctx, res, src[2][1][1]) if okf and src[2][1][0] == 'closure' else []
-            okf = okf and len(c0) == 1 and c0[0].ret[0] == 'call' and c0[0].ret[1] == 'table::is_good_node' and field_chain(strip_transparent(c0[0].ret[2][0]))[-1:] == ['1']
-            # find predicate: tup.0 == current_index && !tup.2
-            c1 = closure_paths(ctx, res, f[2][1][1]) if f[2][1][0] == 'closure' else []
+            while isinstance(src, tuple) and src and src[0] == 'call' and src[1].split('::')[-1] == 'filter':
+                stages.append(src[2][1])
+                src = strip_transparent(src[2][0])
+            okf = isinstance(src, tuple) and src[0] == 'call' and src[1].split('::')[-1] == 'iter_mut' and 'assorted_nodes' in str(src)
 
             def classify(lit, c):
                 rel, a, b2, truth = lit
                 if rel == 'eq':
                     names = {tuple(field_chain(a))[-1:], tuple(field_chain(b2))[-1:]}
-                    if names == {('0',), ('_ref__current_index',)} or (('0',) in names and any('current_index' in str(x) for x in (a, b2))):
+                    if (('0',) in names and any('current_index' in str(x) or 'bucket_index' in str(x) for x in (a, b2))):
                         return ('same_bucket', truth)
                 if rel == 'bool' and field_chain(a)[-1:] == ['2']:
                     return ('handed_out', truth)
+                if rel == 'bool' and isinstance(a, tuple) and a[0] == 'call' and a[1] == 'table::is_good_node' and field_chain(strip_transparent(a[2][0]))[-1:] == ['1']:
+                    return ('live', truth)
                 raise Lost('assorted find predicate: unrecognised condition')
 
+            bad = []
             try:
-                tab = lib.bool_table(c1, classify)
-                bad, n = tab.compare({'same_bucket': BOOL, 'handed_out': BOOL}, lambda vv: vv['same_bucket'] and not vv['handed_out'])
+                tabs = []
+                for cl in stages:
+                    if not (isinstance(cl, tuple) and cl[0] == 'closure'):
+                        raise Lost('predicate is not a closure')
+                    cb, cs = lib.closure_sym(ctx, cl, res)
+                    tabs.append(lib.bool_table(cs.complete_paths(), classify))
+                for live in BOOL:
+                    for same in BOOL:
+                        for handed in BOOL:
+                            outs = []
+                            for t in tabs:
+                                got = t.lookup({'live': live, 'same_bucket': same, 'handed_out': handed})
+                                if not got or len(set(got)) != 1:
+                                    raise Lost('undecided')
+                                outs.append(got[0])
+                            if all(outs) != (live and same and not handed):
+                                bad.append((live, same, handed))
             except Lost:
                 bad = ['unclassified']
-            marked = any(e[0] == 'write' and field_chain(e[1])[-1:] == ['2'] and term_int(e[2]) == 1 and find_calls(e[1], 'Iterator::find') for e in p.effects)
+            marked = any(e[0] == 'write' and field_chain(e[1])[-1:] == ['2'] and term_int(e[2]) == 1 and find_calls(e[1], '::find') for e in p.effects)
             if not (okf and not bad and marked):
+                ok = False
+        elif field_chain(v)[-2:] == ['0', '1'] and find_calls(v, '::next') and 'assorted_nodes' in str(v):
+            # the same hand-out written as a loop over the last-bucket entries
+            kinds.add('assorted')
+            nxc = find_calls(v, '::next')[0]
+            elem = ('field', ('downcast', nxc, 'Some'), '0')
+            facts_ = {}
+            for c in p.conds:
+                rel, a, b2, truth = literal(c)
+                if rel == 'bool' and isinstance(a, tuple) and a[0] == 'call' and a[1] == 'table::is_good_node' and find_calls(a, '::next') == [nxc] and field_chain(strip_transparent(a[2][0]))[-1:] == ['1']:
+                    facts_['live'] = truth
+                if rel == 'bool' and field_chain(strip_transparent(a))[-1:] == ['2'] and find_calls(a, '::next') == [nxc]:
+                    facts_['handed_out'] = truth
+                if rel == 'eq':
+                    for x, y in ((a, b2), (b2, a)):
+                        if field_chain(strip_transparent(x))[-1:] == ['0'] and find_calls(x, '::next') == [nxc] and ('current_index' in str(y) or 'bucket_index' in str(y)):
+                            facts_['same_bucket'] = truth
+            marked = any(e[0] == 'write' and field_chain(e[1])[-1:] == ['2'] and term_int(e[2]) == 1 and find_calls(e[1], '::next') == [nxc] for e in p.effects)
+            if not (facts_ == {'live': True, 'same_bucket': True, 'handed_out': False} and marked):
                 ok = False
         else:
             ok = False
@@ -223,7 +262,15 @@ def rule_next_index_in_bounds(ctx, res):
     n = 0
     for p in s.complete_paths():
         r = p.ret
+        if agg_variant(r) == 'None':
+            continue
         if agg_variant(r) != 'Some':
+            # an Option handed back as it is (`preferred` / `fallback`): it must have passed the bounds test on this path
+            n += 1
+            ro = strip_transparent(r)
+            if not any(literal(c)[0] == 'bool' and literal(c)[3] is True and literal(c)[1][0] == 'call' and literal(c)[1][1] == 'table::index_is_in_bounds'
+                       and is_param(strip_transparent(literal(c)[1][2][0]), 'num_buckets') and strip_transparent(literal(c)[1][2][1]) == ro for c in p.conds):
+                ok = False
             continue
         n += 1
         v = strip_transparent(r[2].get('0'))
@@ -234,9 +281,15 @@ def rule_next_index_in_bounds(ctx, res):
             rel, a, b2, truth = literal(c)
             if rel == 'bool' and truth is True and a[0] == 'call' and a[1] == 'table::index_is_in_bounds' and is_param(strip_transparent(a[2][0]), 'num_buckets') and inner is not None and strip_transparent(a[2][1]) == strip_transparent(inner):
                 guarded = True
+            # the bounds test itself, however it is packaged: `index < num_buckets` held for the index that is returned
+            if rel == 'lt' and truth is True and is_param(strip_transparent(b2), 'num_buckets') and strip_transparent(a) == v:
+                guarded = True
         if not guarded:
             ok = False
     res.check(ok and n >= 4, 'DOM', b.path, 'every bucket index the walk moves to passed index_is_in_bounds(num_buckets, ..)', detail='%d Some-returns' % n)
+    # index_is_in_bounds (when it exists as a function) is `index is Some and < length`
+    if ctx.f.body('table::index_is_in_bounds') is None:
+        return
     ib = ctx.body('table::index_is_in_bounds')
     res.touch(ib)
     isym = Sym(ib)
